@@ -7,7 +7,9 @@
    only required to name a retained key. *)
 From Coq Require Import List NArith ZArith Bool.
 From GQL Require Import Base.Bytes Cache.LRU Cache.CacheSpec Proofs.CacheProofs
-     Run.C06run Proofs.CacheRunProofs Cache.Normalize Proofs.CacheNormalizeProofs Proofs.CacheAdmProofs.
+     Run.C06run Proofs.CacheRunProofs Cache.Normalize Proofs.CacheNormalizeProofs Proofs.CacheAdmProofs
+     Cache.Prepared Proofs.CachePreparedProofs Cache.NormalizeHeap Proofs.CacheNormalizeHeapProofs
+     Proofs.CacheNormalizeRefineProofs.
 Import ListNotations.
 Open Scope N_scope.
 
@@ -146,44 +148,140 @@ Proof.
 Qed.
 Print Assumptions C06_model_admissible.
 
-(* Literal normalisation on a reduced query syntax (Cache/Normalize.v): for
-   every schema (field_def, arg_ty, tc_obj), every coercion (lit_coerce =
-   valueFromAST on a literal, var_coerce = variable coercion), every selection
-   set whose variables are among [taken] (variableNames of the document) and
-   every variable environment env of the caller: executing the normalised
-   selection set under env extended by the synthetic definitions applied to
-   SynthArgs is observationally the execution of the original under env
-   (same denotation: typed arguments by coerced value, everything else by
-   syntax + the values of the variables occurring in it); the caller's
-   variables keep their values (so fragments, which stay as written, see the
-   same environment), and every synthetic variable is fresh and valid.
-   Partial: reduced syntax (composite values with variables and
-   alias/directives are opaque), no statement about validation of the
-   normalised document, the nextName loop is bounded by fuel (out of fuel =
-   literal left in place). *)
-Theorem C06_normalize_transparent_partial :
-  forall (L cval mixed deco : Type) (L_eqb : L -> L -> bool) (cval_eqb : cval -> cval -> bool)
-         (mixed_vars : mixed -> list name) (deco_vars : deco -> list name) (synth_name : N -> name)
-         field_def arg_ty tc_obj (lit_coerce : ty -> L -> option cval) (var_coerce : ty -> cval -> option cval)
-         (taken : list name) (fuel : nat) (env : name -> option cval),
-    (forall a b, L_eqb a b = true -> a = b) ->
-    (forall a b, cval_eqb a b = true -> a = b) ->
-    (forall a b, synth_name a = synth_name b -> a = b) ->
-    forall root (sels : list (@sel L mixed deco)) st sels',
-      normalize L_eqb cval_eqb synth_name field_def arg_ty tc_obj lit_coerce var_coerce taken fuel root sels = (st, sels') ->
-      incl (flat_map (sel_vars mixed_vars deco_vars) sels) taken ->
+(* Literal normalisation on the query syntax of Cache/Normalize.v (values with
+   nested lists/objects and variables anywhere, aliases, directives with
+   arguments on fields, inline fragments and spreads): for every schema
+   (field_def, arg_ty, dir_arg_ty, tc_obj), every valueFromAST [coerce] that
+   reads only the variables occurring in the value and returns a variable's
+   value for a variable, every literal-validity and variable coercion, every
+   selection set whose variables are among [taken] (variableNames of the
+   document) and every variable environment env of the caller: executing the
+   normalised selection set under env extended by the synthetic definitions
+   applied to SynthArgs is observationally the execution of the original under
+   env (equal denotations); the caller's variables keep their values (so
+   fragments and directives, which stay as written, see the same environment);
+   every synthetic variable is fresh, valid for its type, and bound to its
+   extracted value. *)
+Section NormalizeStatements.
+  Context {L cval : Type}.
+  Variable value_eqb : @value L -> @value L -> bool.
+  Variable cval_eqb : cval -> cval -> bool.
+  Variable synth_name : N -> name.
+  Variable field_def : otype -> name -> option (option otype).
+  Variable arg_ty : otype -> name -> name -> option ty.
+  Variable dir_arg_ty : name -> name -> option ty.
+  Variable tc_obj : name -> option otype.
+  Variable coerce : ty -> @value L -> (name -> option cval) -> option cval.
+  Variable lit_valid : ty -> @value L -> bool.
+  Variable var_coerce : ty -> cval -> option cval.
+  Variable taken : list name.
+
+  Definition norm_env_ok : Prop :=
+    (forall a b, value_eqb a b = true -> a = b) /\ (forall a, value_eqb a a = true) /\
+    (forall a b, cval_eqb a b = true -> a = b) /\
+    (forall a b, synth_name a = synth_name b -> a = b) /\
+    (forall t v e1 e2, (forall x, In x (value_vars v) -> e1 x = e2 x) -> coerce t v e1 = coerce t v e2) /\
+    (forall t x e, coerce t (VVar x) e = e x).
+
+  Notation normalize' := (normalize value_eqb cval_eqb synth_name field_def arg_ty tc_obj coerce lit_valid var_coerce taken).
+  Notation sub_value' := (sub_value value_eqb cval_eqb coerce lit_valid var_coerce).
+  Notation sub_sel' := (sub_sel value_eqb cval_eqb field_def arg_ty tc_obj coerce lit_valid var_coerce).
+  Notation denote' := (denote field_def arg_ty dir_arg_ty tc_obj coerce).
+
+  Theorem C06_normalize_transparent :
+    norm_env_ok -> forall (env : name -> option cval) root (sels : list (@sel L)) st sels',
+      normalize' root sels = (st, sels') -> incl (flat_map sel_vars sels) taken ->
       let env' := extend var_coerce env (n_synth st) in
-      map (denote mixed_vars deco_vars field_def arg_ty tc_obj lit_coerce env' root) sels' =
-      map (denote mixed_vars deco_vars field_def arg_ty tc_obj lit_coerce env root) sels /\
+      map (denote' env' root) sels' = map (denote' env root) sels /\
       (forall y, In y taken -> env' y = env y) /\
       (forall x t c, In (x, (t, c)) (n_synth st) -> ~ In x taken /\ var_coerce t c = Some c /\ env' x = Some c).
-Proof.
-  intros L cval mixed deco L_eqb cval_eqb mixed_vars deco_vars synth_name field_def arg_ty tc_obj
-         lit_coerce var_coerce taken fuel env H1 H2 H3 root sels st sels' HN HV.
-  exact (normalize_transparent L_eqb cval_eqb mixed_vars deco_vars synth_name field_def arg_ty tc_obj
-           lit_coerce var_coerce taken fuel env H1 H2 H3 root sels st sels' HN HV).
-Qed.
-Print Assumptions C06_normalize_transparent_partial.
+  Proof.
+    intros [H1 [H2 [H3 [H4 [H5 H6]]]]] env root sels st sels' HN HV.
+    exact (normalize_transparent value_eqb cval_eqb synth_name field_def arg_ty dir_arg_ty tc_obj coerce lit_valid var_coerce
+             taken env H1 H2 H3 H4 H5 H6 root sels st sels' HN HV).
+  Qed.
+
+  (* Validation verdicts of the rewritten operation.  The rewriting is a
+     substitution at typed argument positions ([sub_sel]); it (i) maps two
+     values at positions of one type to equal values exactly when they were
+     equal (sameArguments in the overlapping-fields rule: fields that could be
+     merged can still be merged, fields that conflicted still conflict), (ii)
+     puts at a rewritten position a variable declared with exactly that
+     position's type (variables in allowed position), bound to the coerced value
+     of a literal that was valid there (arguments of correct type; variable
+     values of correct type), (iii) declares each synthetic variable once, under
+     a name the document does not use (unique variable names; no undefined or
+     captured variable). *)
+  Theorem C06_normalize_validation_preserved :
+    norm_env_ok -> forall root (sels : list (@sel L)) st sels',
+      normalize' root sels = (st, sels') -> incl (flat_map sel_vars sels) taken ->
+      sels' = map (sub_sel' st root) sels /\
+      (forall t v1 v2, incl (value_vars v1) taken -> incl (value_vars v2) taken ->
+                       (sub_value' st t v1 = sub_value' st t v2 <-> v1 = v2)) /\
+      (forall t v, sub_value' st t v <> v ->
+                   exists x c, sub_value' st t v = VVar x /\ In (x, (t, c)) (n_synth st) /\
+                               extract_value cval_eqb coerce lit_valid var_coerce t v = Some c /\
+                               lit_valid t v = true /\ var_coerce t c = Some c /\ ~ In x taken) /\
+      (forall x t1 c1 t2 c2, In (x, (t1, c1)) (n_synth st) -> In (x, (t2, c2)) (n_synth st) -> t1 = t2 /\ c1 = c2) /\
+      (forall x t c, In (x, (t, c)) (n_synth st) -> ~ In x taken).
+  Proof.
+    intros [H1 [H2 [H3 [H4 [H5 H6]]]]] root sels st sels' HN HV.
+    destruct (normalize_ok value_eqb cval_eqb synth_name field_def arg_ty dir_arg_ty tc_obj coerce lit_valid var_coerce
+                taken (fun _ => None) H1 H2 H3 H4 H5 H6 root sels st sels' HN HV) as [W [B _]].
+    split; [exact B|split; [|split; [|eapply synth_defs_unique; eassumption]]].
+    - intros t v1 v2 I1 I2. split; [|intros ->; reflexivity].
+      intro E. eapply sub_value_inj; eassumption.
+    - intros t v Hne. eapply sub_value_changed; eassumption.
+  Qed.
+
+  (* The caller's document is not modified (Cache/NormalizeHeap.v: Argument
+     nodes are mutable cells; the walk assigns arg.Value): after
+     normalizeDocument every cell that existed before holds what it held, so
+     the caller's trees read back as the same document. *)
+  Theorem C06_original_unchanged :
+    forall root (hs : @hst L) (ps : list (@psel L)) st hs' ps',
+      hnormalize value_eqb cval_eqb synth_name field_def arg_ty tc_obj coerce lit_valid var_coerce taken root hs ps = (st, hs', ps') ->
+      Forall (fun i => i < h_next hs) (flat_map pids ps) ->
+      (forall j, j < h_next hs -> hget (h_heap hs') j = hget (h_heap hs) j) /\
+      map (read_sel (h_heap hs')) ps = map (read_sel (h_heap hs)) ps.
+  Proof.
+    intros root hs ps st hs' ps' H Hb.
+    exact (caller_cells_unchanged value_eqb cval_eqb synth_name field_def arg_ty tc_obj coerce lit_valid var_coerce taken root hs ps st hs' ps' H Hb).
+  Qed.
+
+  (* ... and what the walk leaves in the clone's cells is the functional
+     normalisation of the caller's document, with the same synthetic
+     definitions: the two theorems above are about what the code-shaped
+     algorithm returns. *)
+  Theorem C06_normalize_in_place_refines :
+    forall root (hs : @hst L) (ps : list (@psel L)) st hs' ps',
+      hnormalize value_eqb cval_eqb synth_name field_def arg_ty tc_obj coerce lit_valid var_coerce taken root hs ps = (st, hs', ps') ->
+      Forall (fun i => i < h_next hs) (flat_map pids ps) ->
+      normalize' root (map (read_sel (h_heap hs)) ps) = (st, map (read_sel (h_heap hs')) ps').
+  Proof.
+    intros root hs ps st hs' ps' H Hb.
+    exact (hnormalize_refines value_eqb cval_eqb synth_name field_def arg_ty tc_obj coerce lit_valid var_coerce taken root hs ps st hs' ps' H Hb).
+  Qed.
+End NormalizeStatements.
+Print Assumptions C06_normalize_transparent.
+Print Assumptions C06_normalize_validation_preserved.
+Print Assumptions C06_original_unchanged.
+Print Assumptions C06_normalize_in_place_refines.
+
+(* Prepared plans (Cache/Prepared.v): one plan executed any number of times,
+   with any variables and roots, the lazily filled slots carried from one
+   execution to the next (or filled by anyone else, consistently): every
+   execution returns what an execution on a fresh plan returns.  An execution
+   is any program that reads the plan and asks for slots whose content is a
+   function of the immutable plan and the slot key. *)
+Theorem C06_prepared_reuse :
+  forall (S SP V Root Res : Type) (init_slot : S -> slot -> SP) (body : S -> V -> Root -> @prog SP Res)
+         (s : S) (runs : list (V * Root)) (m : @memo SP),
+    consistent init_slot s m ->
+    fst (exec_many init_slot body s m runs) = map (fun vr => fresh_exec init_slot body s (fst vr) (snd vr)) runs /\
+    consistent init_slot s (snd (exec_many init_slot body s m runs)).
+Proof. intros. apply exec_many_fresh. assumption. Qed.
+Print Assumptions C06_prepared_reuse.
 
 (* ---- non-vacuity: the hypotheses are satisfiable and the model moves ---- *)
 
@@ -213,13 +311,36 @@ Example C06_nonvacuous_key :
   [97] ++ 0 :: [49; 58; 98] <> [97; 0] ++ 0 :: [58; 98].
 Proof. split; intro H; vm_compute in H; discriminate H. Qed.
 
-(* normalisation does extract, share and avoid taken names: {f(n:1) f(n:1) g(p:$v)} with $v and __pcv0 taken *)
+(* normalisation does extract, share and avoid taken names:
+   {f(n:1) x:f(n:1) g(p:[1,$v]) @skip(if:$v)} with $5 and __pcv0 (= 100) taken *)
 Example C06_nonvacuous_normalize :
   let fd := fun (_ : otype) (_ : name) => Some (@None otype) in
   let at_ := fun (_ : otype) (_ _ : name) => Some 7 in
-  let res := normalize (L:=N) (cval:=N) (mixed:=unit) (deco:=unit) N.eqb N.eqb (fun k => 100 + k) fd at_ (fun _ => None)
-                       (fun _ l => Some l) (fun _ c => Some c) [5; 100] 3%nat 0
-                       [Field tt 1 [(9, VLit 1)] []; Field tt 1 [(9, VLit 1)] []; Field tt 2 [(8, VVar 5)] []] in
-  snd res = [Field tt 1 [(9, VVar 101)] []; Field tt 1 [(9, VVar 101)] []; Field tt 2 [(8, VVar 5)] []] /\
+  let veqb := fun (a b : @value N) => match a, b with VScalar x, VScalar y => x =? y | _, _ => false end in
+  let co := fun (_ : ty) (v : @value N) (e : name -> option N) => match v with VScalar l => Some l | VVar x => e x | _ => None end in
+  let res := normalize (cval:=N) veqb N.eqb (fun k => 100 + k) fd at_ (fun _ => None)
+                       co (fun _ _ => true) (fun _ c => Some c) [5; 100] 0
+                       [Field None 1 [(9, VScalar 1)] [] []; Field (Some 3) 1 [(9, VScalar 1)] [] [];
+                        Field None 2 [(8, VList [VScalar 1; VVar 5])] [(4, [(6, VVar 5)])] []] in
+  snd res = [Field None 1 [(9, VVar 101)] [] []; Field (Some 3) 1 [(9, VVar 101)] [] [];
+             Field None 2 [(8, VList [VScalar 1; VVar 5])] [(4, [(6, VVar 5)])] []] /\
   n_synth (fst res) = [(101, (7, 1))].
+Proof. vm_compute. split; reflexivity. Qed.
+
+(* prepared plans: the second execution finds the slot filled and returns the same *)
+Example C06_nonvacuous_prepared :
+  let body := fun (s : N) (v : N) (_ : unit) => Need (SP:=N) (Res:=N) 3 (fun sp => Ret (sp + v)) in
+  exec_many (fun s sl => s + sl) body 10 [] [(1, tt); (2, tt)] = ([14; 15], [(3, 13)]).
+Proof. vm_compute. reflexivity. Qed.
+
+(* the clone gets new cells; the caller's cell 0 keeps its literal *)
+Example C06_nonvacuous_heap :
+  let fd := fun (_ : otype) (_ : name) => Some (@None otype) in
+  let at_ := fun (_ : otype) (_ _ : name) => Some 7 in
+  let veqb := fun (a b : @value N) => match a, b with VScalar x, VScalar y => x =? y | _, _ => false end in
+  let co := fun (_ : ty) (v : @value N) (e : name -> option N) => match v with VScalar l => Some l | VVar x => e x | _ => None end in
+  let hs := mkH [(0, (9, VScalar 1))] 1 in
+  let '(st, hs', ps') := hnormalize (cval:=N) veqb N.eqb (fun k => 100 + k) fd at_ (fun _ => None) co (fun _ _ => true)
+                                    (fun _ c => Some c) [] 0 hs [PField None 1 [0] [] []] in
+  hget (h_heap hs') 0 = (9, VScalar 1) /\ map (read_sel (h_heap hs')) ps' = [Field None 1 [(9, VVar 100)] [] []].
 Proof. vm_compute. split; reflexivity. Qed.
